@@ -32,6 +32,8 @@ pub fn parse_json_path(jp_str: &str) -> Parsed<JpQuery> {
             "Leading or trailing whitespaces".to_string(),
         ))
     } else {
+        #[cfg(jsonpath_rust_verif)]
+        crate::verif::point(crate::verif::PARSE_ENTER);
         JSPathParser::parse(Rule::main, jp_str)
             .map_err(Box::new)?
             .next()
@@ -42,6 +44,8 @@ pub fn parse_json_path(jp_str: &str) -> Parsed<JpQuery> {
 }
 
 pub fn jp_query(rule: Pair<Rule>) -> Parsed<JpQuery> {
+    #[cfg(jsonpath_rust_verif)]
+    crate::verif::point(crate::verif::PARSE_TREE);
     Ok(JpQuery::new(segments(next_down(rule)?)?))
 }
 pub fn rel_query(rule: Pair<Rule>) -> Parsed<Vec<Segment>> {
